@@ -7,8 +7,9 @@ from vv.core import Result
 ID = 'C02'
 CASES = {'quick': 600, 'thorough': 40000}
 HANG_IS_VIOLATION = True
-RULE = ('Hypothesis draws 1..4 scripted recording processes (constant or '
-        'invocation-indexed timesteps on a k/4 grid, or on the 10^-p grid with '
+RULE = ('Hypothesis draws 1..4 scripted recording processes (constant, '
+        'invocation-indexed or poll-indexed timesteps - a waiting process '
+        'polled again may ask for a different timestep - on a k/4 grid, or on the 10^-p grid with '
         'global_time_precision p in {1,2}), optionally vivarium\'s own Clock '
         'process, 0..2 bystander steps, an initial global time and 1..5 '
         'run_for/update calls whose lengths need not be multiples of any '
@@ -28,8 +29,9 @@ ASSUMPTIONS = [
 
 @st.composite
 def strategy_(draw, tier):
-    spec = draw(sched.sched_specs(quiet=False, adaptive=False, force_last=True,
-                                  precisions=(None, None, None, 1, 2)))
+    spec = draw(sched.sched_specs(quiet=False, adaptive=True, force_last=True,
+                                  precisions=(None, None, None, 1, 2),
+                                  deep=tier == 'thorough'))
     spec['clock'] = None
     if draw(st.booleans()):
         unit = 0.25 if spec['precision'] is None else 10 ** -spec['precision']
@@ -64,6 +66,12 @@ def run_case(spec):
         parsed = sched.parse(ctx, spec)
         ivs = sched.intervals(spec, parsed, res)
         classify(spec, res, ivs)
+        if 'sched.repoll_past' in res.labels:
+            # a waiting process that, polled again, asks for an interval that
+            # ends before the current time: the known finding F03b of C03;
+            # excluded here by construction (counted as rejected)
+            res.rejected = True
+            return res
         final = engine.global_time
         elapsed = final - spec['t0']
         applied = {}
@@ -94,9 +102,9 @@ def run_case(spec):
                                  name, k + 1, iv['start'], iv['end'], times))
                 t_inv = iv['poll'].t
                 if not (iv['start'] <= t_inv + (0 if exact else 1e-9)
-                        and t_inv < iv['end'] + (0 if exact else 1e-9)):
+                        and t_inv <= iv['end'] + (0 if exact else 1e-9)):
                     res.fail('invoked_outside', '%s invocation %d at global '
-                             'time %r outside its interval [%r,%r)' % (
+                             'time %r outside its interval [%r,%r]' % (
                                  name, k + 1, t_inv, iv['start'], iv['end']))
                 total += iv['arg']
             if not close(total, elapsed, exact and all(
